@@ -164,6 +164,9 @@ func catalogue(w *world, check string) []kase {
 			}
 		}
 	}
+	if inList(w.sc.OnlyPaths, "/Share") {
+		out = append(out, shiftedShareCases(w)...)
+	}
 	if len(w.sc.OnlyOps) == 0 && len(w.sc.OnlyPaths) == 0 { // operator- or path-restricted scenario: field operators only
 		out = append(out, specialCases(w, check)...)
 	}
